@@ -32,7 +32,10 @@ class BayesianEstimator(ParameterEstimator):
                 )
 
             if isinstance(model, DAG):
+                nodes = list(model.nodes())
                 model = BayesianNetwork(model.edges())
+                # Building from the edge list alone would lose the nodes without any edge.
+                model.add_nodes_from(nodes)
 
         super(BayesianEstimator, self).__init__(model, data, **kwargs)
 
